@@ -5,15 +5,15 @@ V = os.path.dirname(os.path.dirname(os.path.abspath(__file__)))
 CHECKS = {
  'C01': dict(level='model_checking', ref='DESIGN.md §2 C01', engine='dx',
    technique='exhaustive bounded exploration of deviate choice points (decision thresholds solved from the reference model), every execution replayed on transpiled-Fortran model and port',
-   text='Every explored execution (all (draw-site, threshold-side) edges of every reference background scheme, plus all executions with <=1 (quick) / <=2 (thorough) forced deviates and all discrete paths up to a cap; at every rejection test the preceding draw swept over a 24-point grid with both sides of the re-solved threshold probed) is run on the mechanically transpiled Fortran reference and on the port through GENBBsub/genbbsub and compared particle by particle and draw for draw.',
+   text='Every explored execution (all (draw-site, threshold-side) edges of every reference background scheme, plus all executions with <=1 (quick) / <=2 (thorough) forced deviates and all discrete paths up to a cap; at every rejection test the preceding draw swept over a 24-point grid with both sides of the re-solved threshold probed) is run on the mechanically transpiled Fortran reference and on the port through GENBBsub/genbbsub and compared particle by particle and draw for draw; the edge coverage is repeated under squeezed default streams (every unforced deviate in a half, third or tenth of (0,1)) and the single-call form of the entry point (istart=0) is compared with the single call of the model.',
    note='Trusted: tools/f2cxx.py transpilation (REAL as double), independent CERNLIB stand-ins, affine-threshold discovery; continuous draws at tails, 0.5, the default-stream value and (before rejection tests) a 24-point grid; margin classes of DESIGN section 6 decide which executions can be judged.'),
  'C02': dict(level='model_checking', ref='DESIGN.md §2 C02', engine='dx',
    technique='complete enumeration of the (isotope, level, mode) grid against the reference acceptance, then bounded exhaustive deviate-choice exploration per accepted configuration, model vs port',
-   text='All 18360 (isotope, level 0..17, mode 1..20) requests are issued to model and port; for each of the ~1130 accepted ones initialisation (deviates consumed, toallevents, 4300-bin spectrum table) and all explorer executions (layers A+B1 quick, A+B2+C thorough) are compared with the transpiled reference; energy windows on window-capable modes.',
+   text='All 18360 (isotope, level 0..17, mode 1..20) requests are issued to model and port; for each of the ~1130 accepted ones initialisation (deviates consumed, toallevents, 4300-bin spectrum table) and all explorer executions (layers A+B1 quick, A+B2+C thorough) are compared with the transpiled reference; energy windows on window-capable modes (incl. a narrow one), re-initialisation chains on one working block, mode 18 with three sets of nuclear matrix elements, the single-call form of the entry point (istart=0) against the single call of the model, and the edge coverage again under squeezed default streams.',
    note='Trusted: as C01; executions whose model decision margin is below tau (10x measured table noise) are counted ambiguous; mode 18 with one NME set.'),
  'C03': dict(level='exploration', ref='DESIGN.md §2 C03', engine='dx',
    technique='bounded exhaustive deviate-choice exploration of every accepted configuration through decay0_generator with an energy-budget invariant; nested window chains',
-   text='Every execution of the explorer (complete accepted grid + nested energy windows, driven through the public generator class) is checked against the Q-value budget (=Q within 3 keV for neutrinoless modes, <=Q otherwise), the window on the lepton energy sum and the toallevents rules (>=1, =1 full range, monotone along nested windows). Independent of the reference model, so it also binds the BxDecay0-only paths and defects shared with the reference.',
+   text='Every execution of the explorer (complete accepted grid + nested energy windows, driven through the public generator class) is checked against the Q-value budget (=Q within 3 keV for neutrinoless modes, <=Q otherwise), the window on the lepton energy sum and the toallevents rules (>=1, =1 full range, monotone along nested windows), also under squeezed default streams. Independent of the reference model, so it also binds the BxDecay0-only paths and defects shared with the reference.',
    note='Trusted: Q as reported by bbpars.Qbb (cross-checked by C02); tolerance 3 keV; thresholds discovered on the model (affine) or by bisection on the port.'),
  'C04': dict(level='exploration', ref='DESIGN.md §2 C04', engine='dx',
    technique='bounded exhaustive deviate-choice exploration incl. extreme tails of every draw, well-formedness invariant and draw-horizon (livelock) detection',
@@ -21,7 +21,7 @@ CHECKS = {
    note='Trusted: fairness of the counter-hash default stream; horizon 1e5 deviates; kinetic-energy bound 12 MeV.'),
  'C08': dict(level='exploration', ref='DESIGN.md §2 C08', engine='dx',
    technique='the bounded exhaustive explorations of C01-C04 re-run on an ASan+UBSan+_GLIBCXX_ASSERTIONS build, sanitizer reports as oracle',
-   text='The same exhaustive edge-coverage exploration (every published name, every accepted double-beta configuration, windows; generator and plumbing entry points in the thorough tier) is executed against the sanitizer build of /repo in recover mode, together with the drivers of C14 (gA sampler), C07 (API histories over every double-beta mode), C09, C10 and C11; any AddressSanitizer/UBSan report (UBSan through the runtime report hook) or fatal signal is a violation identified by kind and top bxdecay0 frame. For never-assigned locals the edge coverage is repeated on an unoptimised build with pattern-initialised automatic variables and compared with the model; the thorough tier adds a valgrind pass.',
+   text='The same exhaustive edge-coverage exploration (every published name, every accepted double-beta configuration, windows; generator and plumbing entry points in the thorough tier) is executed against the sanitizer build of /repo in recover mode, together with the drivers of C14 (gA sampler), C07 (API histories over every double-beta mode), C09, C10 and C11; any AddressSanitizer/UBSan report (UBSan through the runtime report hook) or fatal signal is a violation identified by kind and top bxdecay0 frame. For never-assigned locals the edge coverage is repeated on an unoptimised build with pattern-initialised automatic variables and compared with the model; the edge coverage of the sanitizer build is repeated under squeezed default streams; the thorough tier adds a valgrind pass.',
    note='Trusted: GCC ASan/UBSan; float division by zero excluded; uninitialised reads are outside ASan/UBSan.'),
  'C06': dict(level='model_checking', ref='DESIGN.md §2 C06', engine='c06',
    technique='complete enumeration of the finite request grid; acceptance compared cell by cell with the transpiled reference GENBBsub (kernel stubbed) and README rules',
@@ -29,15 +29,15 @@ CHECKS = {
    note='Trusted: transpiled GENBBsub rules; gA acceptance against synthetic datasets; README rule for mode 20 (ground state only) overrides the Fortran coercion.'),
  'C09': dict(level='model_checking', ref='DESIGN.md §2 C09', engine='c09',
    technique='explicit-state breadth-first search over public API call sequences, histories replayed on fresh objects, conformance with a reference state machine on every transition',
-   text='All sequences of a ~24-operation alphabet (setters with valid and invalid arguments incl. a dropped window, add_operation(MDL|null), initialize, shoot, reset, destroy+new, plus three auxiliary entry points as leaves) up to depth 7 (quick) / 8 (thorough, with and without gA data), started from a new object and from four states reached by a refused initialisation, are executed on real decay0_generator objects; after every transition exception/no-exception, every getter, defaults after reset (all working parameters), the working parameters after every successful initialisation and a probe shot against a fresh instance are compared with a boring reference machine whose validity predicate is the transpiled reference rule set.',
+   text='All sequences of a ~24-operation alphabet (setters with valid and invalid arguments incl. a dropped window, add_operation(MDL|null), initialize, shoot, reset, destroy+new, plus three auxiliary entry points as leaves) up to depth 7 (quick) / 8 (thorough, with and without gA data), started from a new object and from four states reached by a refused initialisation, are executed on real decay0_generator objects; after every transition exception/no-exception, every getter, defaults after reset (all working parameters), the working parameters after every successful initialisation and a probe shot against a fresh instance are compared with a boring reference machine whose validity predicate is the transpiled reference rule set (windows: valid, inverted, empty, well ordered but above the available energy, dropped).',
    note='Trusted: reference machine written from the literal property text; merge of states justified by the reference state plus a sticky refused-operation mark; bounds 2 operations / 2 shots per history.'),
  'C07': dict(level='exploration', ref='DESIGN.md §2 C07', engine='c07',
    technique='exhaustive enumeration of prior-activity histories up to a depth (replayed on fresh objects), differential probe shots against the canonical history',
-   text='For all 69 background names and 20+ double-beta configurations (every isotope in the thorough tier), every history up to depth 3 (4 thorough) over 11 kinds of prior API activity (event reuse with exact capacities and with/without stale label and event time, reset/re-initialise, other instances alive or destroyed, rebuild) is followed by 9 probe shots with recorded deviate streams that must equal the canonical first-shot-of-a-fresh-generator event bit for bit; two predecessor-first histories per configuration in fresh processes (a sibling configuration runs first); collision histories: every ordered pair of beta-sampler calls of different decay schemes that agree in Q and differ elsewhere (from the model call trace), predecessor shot before every port shot of the successor, successor explored against the history-free model; working parameters compared after re-initialisation; probes include steered ones (each of the first 40 deviates in a tail, and pairs: candidate in a tail + acceptance deviate at 0); one 1e4 (1e6 thorough) shot history per configuration.',
+   text='For all 69 background names and 20+ double-beta configurations (every isotope in the thorough tier), every history up to depth 3 (4 thorough) over 11 kinds of prior API activity (event reuse with exact capacities and with/without stale label and event time, reset/re-initialise, other instances alive or destroyed, rebuild) is followed by 9 probe shots with recorded deviate streams that must equal the canonical first-shot-of-a-fresh-generator event bit for bit; two predecessor-first histories per configuration in fresh processes (a sibling configuration runs first); double-beta sibling histories (mode 18 with three sets of matrix elements); collision histories: every ordered pair of beta-sampler calls of different decay schemes that agree in Q and differ elsewhere (from the model call trace), predecessor shot before every port shot of the successor, successor explored against the history-free model; working parameters compared after re-initialisation; probes include steered ones (each of the first 40 deviates in a tail, and pairs: candidate in a tail + acceptance deviate at 0); one 1e4 (1e6 thorough) shot history per configuration.',
    note='Trusted: bit-for-bit comparison; the long history is a single deterministic history, not exhaustive.'),
  'C11': dict(level='model_checking', ref='DESIGN.md §2 C11', engine='c11',
    technique='explicit-state enumeration of (stream, file partition, window, call pattern) against a list-slice reference model on real files; exhaustive value-alphabet round trip',
-   text='Every stream of N<=4 (7 thorough) events, every split over 1-3 files including empty files, every (start,max) in 0..N+1 plus max = INT_MAX, every has_next/load call pattern (with a fresh event object per load and with one shared object) is executed on a real event_reader; each answer is compared with the slice model events[start:start+max]. Streams of records with 1..3 and with 0..3 particles (a zero-particle record first, inner and last in a file). Round trip of ~10k (40k) enumerated events over all six particle species, every published nuclide name and labels of every length 1..40 through the CLI record format to 15 digits.',
+   text='Every stream of N<=4 (7 thorough) events, every split over 1-3 files including empty files, every (start,max) in 0..N+1 plus max = INT_MAX, every has_next/load call pattern (with a fresh event object per load and with one shared object) is executed on a real event_reader; each answer is compared with the slice model events[start:start+max]; past the window the reader must report itself terminated and one more load must deliver nothing. Streams of records with 1..3 and with 0..3 particles (a zero-particle record first, inner and last in a file). Round trip of ~10k (40k) enumerated events over all six particle species, every published nuclide name and labels of every length 1..40 through the CLI record format to 15 digits.',
    note='Trusted: the record layout copied from the driver; loads are only issued after a positive has_next_event.'),
  'C10': dict(level='exploration', ref='DESIGN.md §2 C10', engine='c10',
    technique='exhaustive enumeration of the finite product events x cone setups x entry points x deviate grid with geometric invariants; differential generator-level runs',
@@ -45,11 +45,11 @@ CHECKS = {
    note='Trusted: independent cone-frame construction (Rz(phi)Ry(theta)); tolerances stated in the evidence.'),
  'C16': dict(level='exploration', ref='DESIGN.md §2 C16', engine='c16',
    technique='exhaustive enumeration of monomial/degree/interval/panel grids against closed forms (exactness by linearity) with negative controls',
-   text='Each kernel is run on a complete finite grid whose oracle is a closed form or an independent evaluation: all monomials up to the guaranteed degree for the Gauss-Legendre panels and Simpson (steps that tile the interval and steps that do not; the first non-exact degree as negative control), integrand families with closed-form integrals for the adaptive quadrature at every requested tolerance, unimodal families for the golden section (both entry points; the alternate one with its interior point centred, near the ends and at the golden ratios), polynomials on three table layouts and every table length from 2 nodes for divided differences, an angle grid for the Euler rotation and a (Z,E) grid for the Fermi function against an independent long-double Lanczos evaluation.',
+   text='Each kernel is run on a complete finite grid whose oracle is a closed form or an independent evaluation: all monomials up to the guaranteed degree for the Gauss-Legendre panels and Simpson (steps that tile the interval and steps that do not; the first non-exact degree as negative control), integrand families with closed-form integrals for the adaptive quadrature at every requested tolerance, unimodal families for the golden section (both entry points; the alternate one with its interior point centred, near the ends and at the golden ratios), polynomials on three table layouts and every table length from 2 nodes for divided differences, an angle grid (all three angles over full turns) for the Euler rotation and a (Z,E) grid for the Fermi function against an independent long-double Lanczos evaluation.',
    note='Trusted: closed forms; long double arithmetic of the reference evaluations.'),
  'C14': dict(level='exploration', ref='DESIGN.md §2 C14', engine='c14',
    technique='exhaustive enumeration of small synthetic datasets (all cell assignments over a value alphabet) x all table-boundary deviates, encoder-side tables as reference model',
-   text='Every assignment of a 4-value alphabet to the cells of the kinematic triangle (n=2,3; n=4 thorough) plus shaped larger tables, written with the repository\'s own encoder, is loaded by the real decoder and sampler; every c.d.f. line is compared with the encoder-side table, and both sampling methods are driven over every table boundary (exact and +-1e-9/1e-3), mid points and tails, checking domain, cell membership (for the rejection method: the accepted pair is the proposal of the accepted trial on the grid the file describes), monotonicity and the exported event (energy deviates scripted down to 1e-12); scripted rejection runs (K rejected trials then an accepted one, K up to 99990, must give the pair of the accepted trial and 3(K+1) deviates); one object re-used across datasets must sample like a new one, and a dataset sampled after others in the same process like in a pristine process.',
+   text='Every assignment of a 4-value alphabet to the cells of the kinematic triangle (n=2,3; n=4 thorough) plus shaped larger tables, written with the repository\'s own encoder, is loaded by the real decoder and sampler; every c.d.f. line is compared with the encoder-side table, and both sampling methods are driven over every table boundary (exact and +-1e-9/1e-3), mid points and tails, checking domain, cell membership (for the rejection method: the accepted pair is the proposal of the accepted trial on the grid the file describes), monotonicity and the exported event (energy deviates scripted down to 1e-12); scripted rejection runs (K rejected trials then an accepted one, K up to 99990, must give the pair of the accepted trial and 3(K+1) deviates); one object re-used across datasets must sample like a new one (also after 30000 shots), a dataset installed as another version / process / nuclide must be the one an object configured for it samples, and a dataset sampled after others in the same process like in a pristine process.',
    note='Trusted: resources/data/dbd_gA/tools/mkocdfdata.py as the documented encoder (imported, not copied); datasets with emin+emax <= Qbb.'),
  'C05': dict(level='exploration', ref='DESIGN.md §2 C05', engine='c05',
    technique='complete enumeration of the finite catalogues (README, list files, dispatch literals) with set equality, plus deviation-bounded exhaustive differential runs name-through-generator vs own scheme function',
@@ -57,15 +57,15 @@ CHECKS = {
    note='Trusted: the name -> scheme-function table written from the README; double-beta schemes are bound by C02.'),
  'C12': dict(level='model_checking', ref='DESIGN.md §2 C12', engine='c12',
    technique='stateless exhaustive exploration of thread interleavings of the real code under a cooperative scheduler (preemption-bounded, state-hash pruned), plus a free-running ThreadSanitizer pass',
-   text='All schedules of 2-3 harness threads over the interposed synchronisation points of the real library (GSL handler save/disable/restore, quadrature entry/exit, mutex lock/unlock, every call of a libc function with hidden process-wide state such as strtok/rand/localtime) up to preemption bound 2 (quick) / 3-4 (thorough) are executed, each in a forked child: no abort, no deadlock, handler restored, sequential results; whole-generator harnesses compare each thread\'s events with its sequential events. A separate unserialised ThreadSanitizer run of 23 concurrent generators (and first-use groups, incl. nine concurrent initialisations of the modes that run the nested quadratures) catches unsynchronised accesses, including unsynchronised callers of non-reentrant libc functions (mirrored on an instrumented proxy).',
+   text='All schedules of 2-3 harness threads over the interposed synchronisation points of the real library (GSL handler save/disable/restore, quadrature entry/exit, mutex lock/unlock, every call of a libc function with hidden process-wide state such as strtok/rand/localtime) up to preemption bound 2 (quick) / 3-4 (thorough) are executed, each in a forked child: no abort, no deadlock, handler restored, sequential results; whole-generator harnesses compare each thread\'s events with its sequential events (threads that construct, initialise and shoot, and threads that only shoot generators the parent initialised). A separate unserialised ThreadSanitizer run of 23 concurrent generators (and first-use groups, incl. nine concurrent initialisations of the modes that run the nested quadratures) catches unsynchronised accesses, including unsynchronised callers of non-reentrant libc functions (mirrored on an instrumented proxy).',
    note='Trusted: preemption only at interposed points, sequential consistency; TSan for everything below; glibc/libstdc++ internals are not scheduled.'),
  'C13': dict(level='fault_enumeration', ref='DESIGN.md §2 C13', engine='c13',
    technique='exhaustive enumeration of every write()-level kill point and torn write of the CLI run (LD_PRELOAD shim) plus enumerated command lines compared byte for byte with an in-process API recomputation',
-   text='Every write()/writev() to the event and companion files of several command lines is numbered through an LD_PRELOAD shim and the run is repeated with the process killed before each write and with that write torn (1 byte, half): the completion marker may only be present if the event file equals the complete one, and what is left is a prefix. 150+ command lines (accepted and refused, one-sided windows, activity, MDL options all together and each alone, a refused run re-using the basename of a successful one) are run twice on the binary built from /repo and compared byte for byte with the library API driven in-process with the same seed (one shared engine behind an adaptor of the check; refusals decided by the reference acceptance rules of the model first, so that neither the engine wrapper of the library nor its own acceptance is trusted).',
+   text='Every write()/writev() to the event and companion files of several command lines is numbered through an LD_PRELOAD shim and the run is repeated with the process killed before each write and with that write torn (1 byte, half): the completion marker may only be present if the event file equals the complete one, and what is left is a prefix. 150+ command lines (accepted and refused, one-sided windows, activity, MDL options all together and each alone, the options in reversed and rotated order, seeds 0 and INT_MAX, a refused run re-using the basename of a successful one) are run twice on the binary built from /repo and compared byte for byte with the library API driven in-process with the same seed (one shared engine behind an adaptor of the check; refusals decided by the reference acceptance rules of the model first, so that neither the engine wrapper of the library nor its own acceptance is trusted).',
    note='Trusted: process kill only (no reordering of completed writes, no ENOSPC); refusal rules from README/--help.'),
  'C17': dict(level='exploration', ref='DESIGN.md §2 C17', engine='c17',
    technique='exhaustive enumeration of a configuration grid on the unmodified Geant4 extension sources compiled against a minimal Geant4 stand-in; differential against the core API',
-   text='The unmodified primary_generator_action.cc and unique_point_vertex_generator.cc are compiled against stand-in Geant4 headers and driven over ~4000 (quick) configurations (categories, valid/invalid/unpublished nuclides, seeds, modes, levels, windows, MDL, three vertex-generator situations; on a sub-grid also a user-changed gun multiplicity and re-configuration of one action object after five other configurations); refusal is compared with the core tools (driver rules + decay0_generator::initialize run in-process) (refused requests also after re-configuration with or without an explicit ApplyConfiguration) and every handed-over primary with the particle of an identically seeded core generator (species, momentum in MeV, time in seconds, vertex).',
+   text='The unmodified primary_generator_action.cc and unique_point_vertex_generator.cc are compiled against stand-in Geant4 headers and driven over ~4000 (quick) configurations (categories, valid/invalid/unpublished nuclides, seeds, modes, levels, windows, MDL, three vertex-generator situations; on a sub-grid also a user-changed gun multiplicity and re-configuration of one action object after five other configurations); refusal is compared with the core tools (driver rules + decay0_generator::initialize run in-process) (refused requests also after re-configuration with or without an explicit ApplyConfiguration) and every handed-over primary with the particle of an identically seeded core generator (species, momentum in MeV, time in seconds, vertex; vertex generators by reference, by pointer, exhausted, moving, un-installed in mid-run; circular and rectangular direction locks incl. a null second half-angle).',
    note='Trusted: the stand-in reproduces G4ParticleGun::SetParticleMomentum semantics and CLHEP unit values; real Geant4 is not available offline.'),
  'C15': dict(level='fault_enumeration', ref='DESIGN.md §2 C15', engine='c15',
    technique='bounded exhaustive mutation of small seed files (all truncations, all token x adversarial-alphabet replacements, line deletions/duplications, argv prefixes), each mutant loaded in a forked child of the sanitizer build',
